@@ -5,6 +5,7 @@ import FuModel.Find.StartPoints
 import FuModel.Xargs.Read
 import FuModel.Pred.C08
 import FuModel.Pred.C10
+import FuModel.Find.Perm
 
 /-!
 Driver verb `find`: a whole run of find on an observed world.
@@ -18,9 +19,24 @@ Driver verb `find`: a whole run of find on an observed world.
 namespace FuModel.Drv.FindRun
 open FuModel.Wire FuModel.Find.Run FuModel.Find.Walk FuModel.Find.Expr
 
+def parseRec (s : String) : Option Rec :=
+  match (s.splitOn "_").mapM String.toNat? with
+  | some [perm, nlink, uid, gid, ino, size, dev] => some ⟨perm, nlink, uid, gid, ino, size, dev⟩
+  | _ => none
+
+/-- `<lty><sty>` or `<lty><sty>+<lstat record>+<stat record or ->+<link text hex>` -/
 def parseAttr (s : String) : Option Attr :=
-  match s.toList with
-  | [a, b] => some ⟨a, b⟩
+  match s.splitOn "+" with
+  | [ty] =>
+    (match ty.toList with
+     | [a, b] => some { lty := a, sty := b }
+     | _ => none)
+  | [ty, l, st, tg] => do
+    let (a, b) ← (match ty.toList with | [a, b] => some (a, b) | _ => none)
+    let l ← parseRec l
+    let st ← (if st == "-" then some ({} : Rec) else parseRec st)
+    let tg ← bytesOfHex tg
+    pure { lty := a, sty := b, l := l, s := st, target := tg }
   | _ => none
 
 def parseKind (s : String) : Option LeafKind :=
@@ -94,6 +110,23 @@ def parseArg (s : String) : Option Arg :=
     let cmd ← bytesOfHex cmd
     let fixed ← (if fixed == "_" then some [] else (fixed.splitOn "~").mapM bytesOfHex)
     pure (.tok (.prim (.execMulti id (d == "1") (ok == "1") cmd fixed)))
+  | ["xtype", c] => (match c.toList with | [c] => some (.tok (.prim (.xtype c))) | _ => none)
+  | ["permop", h] => do
+    let op ← charsOfHex h
+    let (k, m) ← FuModel.Find.Perm.parsePerm op
+    pure (.tok (.prim (.perm k m)))
+  | ["sc", f, k, n] => do
+    let f ← (if f == "l" then some StatField.links else if f == "i" then some .inum else if f == "u" then some .uid
+             else if f == "g" then some .gid else none)
+    let n ← n.toNat?
+    let c ← (if k == "p" then some (FuModel.Find.Cmp.more n) else if k == "e" then some (.eq n) else if k == "m" then some (.less n) else none)
+    pure (.tok (.prim (.statCmp f c)))
+  | ["empty"] => some (.tok (.prim .empty))
+  | ["samefile", d, i] => do
+    let d ← d.toNat?
+    let i ← i.toNat?
+    pure (.tok (.prim (.samefile d i)))
+  | ["lname", h] => (bytesOfHex h).map fun b => .tok (.prim (.lname b))
   | ["mindepth", n] => n.toNat?.map .minDepth
   | ["maxdepth", n] => n.toNat?.map .maxDepth
   | _ => none
@@ -318,6 +351,71 @@ def predC10 (req obs : List String) : Option Bool :=
     | some (ref, reached) =>
       pure (FuModel.Pred.C10.pred normDir reached ref.ret st del ch && out == ref.out)
     | none => pure (st != 0 && del.isEmpty && ch == 0)
+  | _, _ => none
+
+def kindNum : PermKind → Nat
+  | .exact => 0 | .atLeast => 1 | .anyOf => 2
+
+def handlePerm (verb : String) (args : List String) : Option String :=
+  match verb, args with
+  | "perm-parse", [h] => do
+    let op ← charsOfHex h
+    pure (match FuModel.Find.Perm.parsePerm op with
+      | some (k, m) => s!"ok {kindNum k} {m} {m}"
+      | none => "reject")
+  | "perm-match", [h, mode] => do
+    let op ← charsOfHex h
+    let mode ← mode.toNat?
+    pure (match FuModel.Find.Perm.parsePerm op with
+      | some (k, m) => boolStr (permMatch k m mode)
+      | none => "reject")
+  | _, _ => none
+
+/-- reference reading of a -perm operand that is in canonical octal or `who=perms,…` form -/
+def specPerm (op : List Char) : Option (PermKind × Nat) :=
+  let (k, rest) : PermKind × List Char := match op with
+    | '-' :: r => (.atLeast, r) | '/' :: r => (.anyOf, r) | r => (.exact, r)
+  if !rest.isEmpty && rest.length ≤ 4 && rest.all FuModel.Find.Perm.isOctal then some (k, FuModel.Find.Perm.octVal rest)
+  else
+    -- clauses `[ugoa]=[rwxst]*` only
+    let clauses := FuModel.Find.Perm.splitComma [] rest
+    let one (c : List Char) : Option Nat :=
+      match c with
+      | w :: '=' :: ps =>
+        let bit (p : Char) : Option Nat :=
+          if p == 'r' then some 0o444 else if p == 'w' then some 0o222 else if p == 'x' then some 0o111
+          else if p == 's' then some 0o6000 else if p == 't' then some 0o1000 else none
+        let mask := if w == 'u' then some 0o4700 else if w == 'g' then some 0o2070 else if w == 'o' then some 0o1007
+                    else if w == 'a' then some 0o7777 else none
+        match mask, ps.mapM bit with
+        | some mk, some bs => some ((bs.foldl (· ||| ·) 0) &&& mk)
+        | _, _ => none
+      | _ => none
+    -- each class at most once (a later clause for the same class would replace the earlier one)
+    let whos := clauses.filterMap List.head?
+    if whos.length != whos.eraseDups.length || whos.contains 'a' then none
+    else (clauses.mapM one).map fun ms => (k, ms.foldl (· ||| ·) 0)
+
+def predC13 (req obs : List String) : Option Bool :=
+  match req, obs with
+  | "find" :: _, _ => predFind req obs
+  | ["perm-parse", h], o => do
+    let op ← charsOfHex h
+    match specPerm op with
+    | some (k, m) => pure (o == ["ok", toString (kindNum k), toString m, toString m])
+    | none => pure (o != ["panic"])
+  | ["perm-match", h, mode], [o] => do
+    let op ← charsOfHex h
+    let mode ← mode.toNat?
+    match specPerm op with
+    | some (k, m) =>
+      let bitsOf (n : Nat) := (List.range 12).filter n.testBit
+      let exp := match k with
+        | .exact => bitsOf mode == bitsOf m
+        | .atLeast => (bitsOf m).all (bitsOf mode).contains
+        | .anyOf => m == 0 || (bitsOf m).any (bitsOf mode).contains
+      pure (o == boolStr exp)
+    | none => pure (o != "panic")
   | _, _ => none
 
 /-- `pipe0`: find's output through `xargs -0`: the arguments delivered, in order -/
